@@ -399,9 +399,15 @@ def scenario_recreate(s, seed, lines=False):
     old = c1.make_rpc_object("pub", Pub)
     r_old = P.QMI_SignalReceiver()
     c1.subscribe_signal("c1", "pub", "s", r_old)
+    # a subscriber of the OLD object in a third context (in c2 it would make the new remote subscribe join a
+    # subscription that the removal notice of the old object, still in flight, then ends: not decided here)
     r_old2 = P.QMI_SignalReceiver()
+    c3 = None
     if rng.random() < 0.5:
-        c2.subscribe_signal("c1", "pub", "s", r_old2)
+        c3 = C.QMI_Context("c3")
+        c3.start()
+        c3.connect_to_peer("c1", "127.0.0.1:%d" % port)
+        c3.subscribe_signal("c1", "pub", "s", r_old2)
 
     # life-cycle events of the object map and of the subscription clean-up (observed from outside)
     ev = obs["events"]
@@ -416,6 +422,11 @@ def scenario_recreate(s, seed, lines=False):
             if k == "pub":
                 ev.append("release")
             dict.__delitem__(self, k)
+
+        def pop(self, k, *d):
+            if k == "pub" and k in self:
+                ev.append("release")
+            return dict.pop(self, k, *d)
 
     common.poke(c1, "_rpc_object_map", LoggedMap(c1._rpc_object_map))
     sm = c1._signal_manager
@@ -479,6 +490,8 @@ def scenario_recreate(s, seed, lines=False):
     obs["tables"] = {"c1.lsubs": sorted(sm._local_subscriptions), "c1.rsubs": sorted(sm._remote_subscriptions),
                      "c2.lsubs": sorted(c2._signal_manager._local_subscriptions)}
     obs["done"] = True
+    if c3 is not None:
+        c3.stop()
     c2.stop()
     c1.stop()
     return obs
@@ -633,8 +646,9 @@ def run_sims(ck, profile):
     sims = []
     depth = 2 if ck.tier == "quick" else 3
     seen = set()
-    scoped = list(small_scope_histories(depth, PREFIXES)) + [(pre, seq) for pre, seq in small_scope_histories(depth + 1, PREFIXES[:1])
-                                                               if len(seq) == depth + 1]
+    scoped = list(small_scope_histories(depth, PREFIXES))
+    if ck.tier == "quick":      # (thorough: depth 3 on all prefixes already; depth 4 would be 20 000 more histories)
+        scoped += [(pre, seq) for pre, seq in small_scope_histories(depth + 1, PREFIXES[:1]) if len(seq) == depth + 1]
     for pre, seq in scoped:
         sim = run_scripted(pre, seq, rng)
         sig = repr([e.get("label") for e in sim.trace])
@@ -642,7 +656,7 @@ def run_sims(ck, profile):
             continue
         seen.add(sig)
         sims.append((sim, "exhaustive"))
-    for d in range(0, 3 if ck.tier == "quick" else 4):
+    for d in range(0, 3):
         for seq in itertools.product(FANOUT_ALPHA, repeat=d):
             sim = run_fanout(seq, rng)
             sig = repr([e.get("label") for e in sim.trace])
@@ -657,10 +671,10 @@ def run_sims(ck, profile):
             if sig not in seen:
                 seen.add(sig)
                 sims.append((sim, "fanout-prefix-named-signals"))
-    nrand = (500 if ck.tier == "quick" else 20000)
+    nrand = (500 if ck.tier == "quick" else 3500)
     for _ in range(nrand):
         sims.append((random_history(rng, profile), "random"))
-    for _ in range(60 if ck.tier == "quick" else 1500):
+    for _ in range(60 if ck.tier == "quick" else 400):
         sims.append((random_history(rng, profile, nnodes=2, nsteps=rng.randint(80, 160)), "random-long"))
     return sims
 
@@ -756,7 +770,7 @@ def run(ck):
     sims = run_sims(ck, "c07")
     check_sims(ck, sims, "C07", ("c07",))
     # H3: threads
-    nsched = 400 if ck.tier == "quick" else 8000
+    nsched = 400 if ck.tier == "quick" else 4000
     jobs = []
     for i in range(nsched):
         remote = (i % 4 == 3)
@@ -776,7 +790,7 @@ def run(ck):
             ck.report("oracle:c07:threads:%s" % bad[0], "C07 fails on real threads: " + bad[1],
                       dict(rp, log=res["obs"]["log"], queues=res["obs"]["queues"]))
         ck.count("threads:records", sum(len(q) for q in res["obs"]["queues"].values()))
-    nfan = 300 if ck.tier == "quick" else 8000
+    nfan = 300 if ck.tier == "quick" else 3000
     jobs = [(scenario_fanout, (ck.rng.randint(0, 10 ** 6), i % 3 == 0), dict(strategy="random" if i % 2 else "pct", seed=i))
             for i in range(nfan)]
     results = dsched.run_forked(jobs, nproc=16, wall_timeout=60.0)
